@@ -6,6 +6,10 @@ cd ${VERIF_DIR:-/verif}; rc=0
 for p in C01 C02 C03 C04 C05 C06 C07 C08 C09 C10 C11 C12 C13 C14 C15 C16 C17 C18; do
   out=$(./check $p quick 2>/dev/null); code=$?
   echo "$out" | tail -1
+  python3 -c "
+import json
+d=json.load(open('evidence/$p.json'))['coverage'].get('violations_of_other_properties_seen')
+if d: print('  NOTE $p: rules of other properties fired on this tree (latent spec imprecision or defect):', d)"
   if [ $code -ne 0 ]; then rc=1; echo "$out" | grep -E "^C[0-9]+ \[|VIOLATION|ERROR" | head -5; fi
   for s in "$@"; do
     out=$(VERIF_SEED=$s ./check $p quick --out /tmp/scratch/all_quick_ev.json 2>/dev/null); code=$?
